@@ -96,3 +96,39 @@ def compile_gen(files, timeout=900):
         if rc != 0:
             return False, "\n".join(logs)
     return True, "\n".join(logs)
+
+
+def gen_columns():
+    """names on both sides of the result export"""
+    import dataclasses
+    from fractions import Fraction as Fr
+
+    import numpy as np
+
+    import MachSysS.feems_result_pb2 as rp
+    import plantgen as pg
+    import sysrun
+    from MachSysS.convert_feems_result_to_proto import _COLUMN_NAMES
+    from feems.types_for_feems import FEEMSResult
+    sl = lambda xs: "[" + "; ".join(core.coq_string(x) for x in xs) + "]"
+    # the detail tables as the code builds them now: run a tiny electric and a tiny mechanical plant
+    ep = {"comps": [{"name": "g", "cls": "genset", "swb": 1, "rated": Fr(1000)}, {"name": "l", "cls": "load", "swb": 1, "rated": Fr(500)}],
+          "breakers": [], "swbs": [1]}
+    ei = {"n": 2, "sts": None, "dt": [Fr(60), Fr(60)],
+          "comps": [{"status": [True, True], "lsm": [Fr(0)] * 2, "pin": [Fr(0)] * 2}, {"pin": [Fr(100), Fr(200)], "set": "from_output"}]}
+    _, _, eres = sysrun.run_electric(ep, ei)
+    mp = {"mech": [{"name": "me", "cls": "main_engine", "line": 1, "rated": Fr(2000)}, {"name": "p", "cls": "propeller", "line": 1, "rated": Fr(2000)}],
+          "lines": [1]}
+    mi = {"n": 2, "dt": [Fr(60), Fr(60)], "comps": [{"status": [True, True]}, {"out": [Fr(500), Fr(800)], "set": "by_output"}]}
+    _, _, mres = sysrun.run_mechanical(mp, mi)
+    out = ["(* GENERATED on every run from the code in /repo -- do not edit *)", "From Coq Require Import String List.",
+           "Import ListNotations.", "Open Scope string_scope.", ""]
+    out.append("Definition result_dataclass_fields : list string := " + sl([f.name for f in dataclasses.fields(FEEMSResult)]) + ".")
+    out.append("Definition feems_result_message_fields : list string := " + sl([f.name for f in rp.FeemsResult.DESCRIPTOR.fields]) + ".")
+    out.append("Definition per_component_message_fields : list string := " + sl([f.name for f in rp.ResultPerComponent.DESCRIPTOR.fields]) + ".")
+    out.append("Definition column_names : list (string * string) := [" + "; ".join(f"({core.coq_string(k)}, {core.coq_string(v)})" for k, v in _COLUMN_NAMES.items()) + "].")
+    out.append("Definition electric_detail_columns : list string := " + sl([str(c) for c in eres.detail_result.columns]) + ".")
+    out.append("Definition mechanical_detail_columns : list string := " + sl([str(c) for c in mres.detail_result.columns]) + ".")
+    core.GEN.mkdir(parents=True, exist_ok=True)
+    (core.GEN / "Gen_columns.v").write_text("\n".join(out) + "\n")
+    return {"result_fields": len(dataclasses.fields(FEEMSResult)), "message_fields": len(rp.FeemsResult.DESCRIPTOR.fields)}
